@@ -121,6 +121,11 @@ Effect(T, pool, st) ==
             ELSE LET d == DIter(T, a.den, a.vars, ks) IN
                  IF d.err THEN (IF Ruleless(T, a.den) THEN [r |-> "err", early |-> FALSE] ELSE [r |-> "free"])
                  ELSE [r |-> "deriv", e |-> Entry(a.form, a.vars, d.t)]
+    [] act = "partial_relaxed" ->        \* MissingOpMode: st.mode \in {"error", "per_operand", "none"}
+         IF st.k >= Len(a.vars) THEN [r |-> "err", early |-> TRUE]
+         ELSE LET d == DM(T, a.den, a.vars[st.k + 1], st.mode) IN
+              IF d.err THEN (IF st.mode = "error" /\ Ruleless(T, a.den) THEN [r |-> "err", early |-> FALSE] ELSE [r |-> "free"])
+              ELSE [r |-> "entry", e |-> Entry(a.form, a.vars, d.t)]
     [] act \in {"reparse", "serde"} -> [r |-> "entry", e |-> Entry(IF act = "serde" THEN "flat" ELSE a.form, a.vars, a.den)]
     [] OTHER -> [r |-> "free"]
 =============================================================================
